@@ -6,10 +6,10 @@ use std::cmp::Ordering;
 use std::collections::HashMap;
 use std::rc::Rc;
 
-use lattices::{Atomize, IsBot, IsTop, Merge, NaiveLatticeOrd};
 use vcommon::{Args, Reporter, Rng, Tier, Value, catch, hash_of, json};
 
 use crate::lat::Lat;
+use crate::obs::{CmpObs, P};
 use crate::model::{Cmp, M, R, Sh, has_hidden_bottom, has_withtop_some_top, norm, r_json, r_parse};
 use crate::universe::{Universe, universe};
 
@@ -49,16 +49,6 @@ impl Ctx {
     }
 }
 
-pub fn built<T: Lat>(u: &Universe) -> Vec<(R, T)> {
-    u.vals.iter().filter_map(|r| T::build(r).map(|t| (r.clone(), t))).collect()
-}
-
-/// A value to hand to the code under test: a clone, or (for representations that mutate on reads) a
-/// fresh build from the raw term.
-pub fn fresh<T: Lat>(r: &R, t: &T) -> T {
-    if T::INTERIOR { T::build(r).expect("rebuild") } else { t.clone() }
-}
-
 fn class_of(rs: &[&R]) -> &'static str {
     if rs.iter().any(|r| has_hidden_bottom(r)) { "hidden-bottom" } else { "plain" }
 }
@@ -77,68 +67,127 @@ fn get_r(v: &Value, k: &str) -> R {
 }
 
 // =============================================================================================
-// C01
+// table entries (non-generic; the generic part is a function pointer into obs.rs)
 
-fn c01_json<T: Lat>(law: &str, rs: &[&R]) -> Value {
-    json!({"engine":"mon_lattices","check":"c01","family":T::name(),"law":law,
-           "inputs": rs.iter().map(|r| r_json(r)).collect::<Vec<_>>()})
+#[derive(Clone)]
+pub struct Ty {
+    pub name: String,
+    pub ctor: &'static str,
+    pub shape: Sh,
+    pub can: fn(&R) -> bool,
 }
 
-/// Outcome of one law instance: Ok(true) held, Ok(false) failed (already reported unless `strict`
-/// is false), Err = undefined (Point).
-fn c01_law<T>(cx: &mut Ctx, law: &'static str, rs: &[&R], strict: bool) -> bool
-where
-    T: Lat + Merge<T> + PartialEq,
-{
-    let b = |i: usize| T::build(rs[i]).expect("c01 build");
-    let site = format!("{}::merge", T::ctor());
-    let r = catch(|| match law {
-        "idempotent" => (Merge::merge_owned(b(0), b(0)), b(0)),
-        "commutative" => (Merge::merge_owned(b(0), b(1)), Merge::merge_owned(b(1), b(0))),
-        "associative" => (
-            Merge::merge_owned(Merge::merge_owned(b(0), b(1)), b(2)),
-            Merge::merge_owned(b(0), Merge::merge_owned(b(1), b(2))),
-        ),
-        _ => unreachable!(),
-    });
+pub fn ty<T: Lat>() -> Ty {
+    Ty { name: T::name(), ctor: T::ctor(), shape: T::shape(), can: crate::hist::can_build::<T> }
+}
+
+pub enum Obs {
+    C01 { law: fn(&str, &[&R]) -> P<(R, R, P<bool>)>, strict: bool },
+    C01h(fn(&R, &R, &R) -> P<(R, R, R)>),
+    C02(fn(&R, &R) -> P<(bool, R)>),
+    C03(fn(&R, &R) -> CmpObs),
+    C03n(fn(&R, &R) -> P<(Option<Ordering>, Option<Ordering>)>),
+    C03t(fn(&R, &R) -> CmpObs),
+    C03u(fn(&R) -> (P<bool>, P<bool>)),
+    C03d(fn() -> P<(bool, R)>),
+    C06(fn(&R) -> P<(bool, Vec<(bool, R)>, R)>),
+}
+
+pub struct Entry {
+    pub prop: &'static str,
+    pub check: &'static str,
+    pub t: Ty,
+    pub o: Option<Ty>,
+    pub obs: Obs,
+}
+
+impl Entry {
+    pub fn family(&self) -> String {
+        match &self.o {
+            Some(o) => format!("{}|{}", self.t.name, o.name),
+            None => self.t.name.clone(),
+        }
+    }
+    pub fn run(&self, cx: &mut Ctx, inp: Option<&Value>) {
+        match &self.obs {
+            Obs::C01 { law, strict } => c01(cx, self, *law, *strict, inp),
+            Obs::C01h(f) => c01h(cx, self, *f, inp),
+            Obs::C02(f) => c02(cx, self, *f, inp),
+            Obs::C03(f) => c03(cx, self, *f, inp),
+            Obs::C03n(f) => c03n(cx, self, *f, inp),
+            Obs::C03t(f) => c03t(cx, self, *f, inp),
+            Obs::C03u(f) => c03u(cx, self, *f, inp),
+            Obs::C03d(f) => c03d(cx, self, *f),
+            Obs::C06(f) => c06(cx, self, *f, inp),
+        }
+    }
+    fn other(&self) -> &Ty {
+        self.o.as_ref().unwrap_or(&self.t)
+    }
+    fn hetero(&self) -> &'static str {
+        if self.other().name == self.t.name { "same-repr" } else { "cross-repr" }
+    }
+    fn case(&self, fields: Value) -> Value {
+        let mut v = json!({"engine":"mon_lattices","check":self.check,"family":self.family()});
+        for (k, x) in fields.as_object().unwrap() {
+            v[k] = x.clone();
+        }
+        v
+    }
+    fn vals_t(&self, u: &Universe) -> Vec<R> {
+        u.vals.iter().filter(|r| (self.t.can)(r)).cloned().collect()
+    }
+    fn vals_o(&self, u: &Universe) -> Vec<R> {
+        u.vals.iter().filter(|r| (self.other().can)(r)).cloned().collect()
+    }
+}
+
+// =============================================================================================
+// C01
+
+type LawFn = fn(&str, &[&R]) -> P<(R, R, P<bool>)>;
+
+fn c01_law(cx: &mut Ctx, e: &Entry, f: LawFn, law: &'static str, rs: &[&R], strict: bool) -> bool {
+    let site = format!("{}::merge", e.t.ctor);
+    let name = &e.t.name;
+    let case = || e.case(json!({"law": law, "inputs": rs.iter().map(|r| r_json(r)).collect::<Vec<_>>()}));
     cx.rep.eval();
     let class = class_of(rs);
-    match r {
+    match f(law, rs) {
         Err(p) => {
             if strict {
-                cx.rep.violation(&format!("C01|{site}|panic|{law}|{class}"), &format!("{}: merge panicked: {p}", T::name()), c01_json::<T>(law, rs));
+                cx.rep.violation(&format!("C01|{site}|panic|{law}|{class}"), &format!("{name}: merge panicked: {p}"), case());
             }
             false
         }
-        Ok((l, rr)) => {
-            let (ml, mr) = (l.model(), rr.model());
+        Ok((l, rr, eq)) => {
             let mut ok = true;
-            if ml != mr {
+            if norm(&l) != norm(&rr) {
                 ok = false;
                 if strict {
                     cx.rep.violation(
                         &format!("C01|{site}|not-{law}(model)|{class}"),
-                        &format!("{}: the two sides reveal different lattice values: {:?} vs {:?}", T::name(), l.reveal(), rr.reveal()),
-                        c01_json::<T>(law, rs),
+                        &format!("{name}: the two sides reveal different lattice values: {l:?} vs {rr:?}"),
+                        case(),
                     );
                 }
             }
-            match catch(|| l == rr) {
+            match eq {
                 Ok(true) => {}
                 Ok(false) => {
                     ok = false;
                     if strict {
                         cx.rep.violation(
                             &format!("C01|{site}|not-{law}(crate-eq)|{class}"),
-                            &format!("{}: the crate's == says the two sides differ: {:?} vs {:?}", T::name(), l.reveal(), rr.reveal()),
-                            c01_json::<T>(law, rs),
+                            &format!("{name}: the crate's == says the two sides differ: {l:?} vs {rr:?}"),
+                            case(),
                         );
                     }
                 }
                 Err(p) => {
                     ok = false;
                     if strict {
-                        cx.rep.violation(&format!("C01|{}::eq|panic|{class}", T::ctor()), &format!("{}: == panicked: {p}", T::name()), c01_json::<T>(law, rs));
+                        cx.rep.violation(&format!("C01|{}::eq|panic|{class}", e.t.ctor), &format!("{name}: == panicked: {p}"), case());
                     }
                 }
             }
@@ -147,10 +196,7 @@ where
     }
 }
 
-fn c01_driver<T>(cx: &mut Ctx, inp: Option<&Value>, strict: bool)
-where
-    T: Lat + Merge<T> + PartialEq,
-{
+fn c01(cx: &mut Ctx, e: &Entry, f: LawFn, strict: bool, inp: Option<&Value>) {
     if let Some(v) = inp {
         let rs: Vec<R> = v["inputs"].as_array().unwrap().iter().map(r_parse).collect();
         let refs: Vec<&R> = rs.iter().collect();
@@ -159,56 +205,53 @@ where
             "commutative" => "commutative",
             _ => "associative",
         };
-        let ok = c01_law::<T>(cx, law, &refs, true);
-        eprintln!("replay c01 {} {law}: {}", T::name(), if ok { "held" } else { "FAILED" });
+        let ok = c01_law(cx, e, f, law, &refs, true);
+        eprintln!("replay c01 {} {law}: {}", e.t.name, if ok { "held" } else { "FAILED" });
         return;
     }
-    let n = cx.args.budget(26, 60, 5);
-    let u = cx.uni(&T::shape(), n);
-    let vals: Vec<R> = u.vals.iter().filter(|r| T::build(r).is_some()).cloned().collect();
+    let n = cx.args.budget(36, 80, 5);
+    let u = cx.uni(&e.t.shape, n);
+    let vals = e.vals_t(&u);
     let models: Vec<M> = vals.iter().map(norm).collect();
-    let fam = T::name();
+    let fam = e.t.name.clone();
     let mut fails = 0u64;
     for x in &vals {
-        if !c01_law::<T>(cx, "idempotent", &[x], strict) {
+        if !c01_law(cx, e, f, "idempotent", &[x], strict) {
             fails += 1;
         }
     }
     for x in &vals {
         for y in &vals {
-            if !c01_law::<T>(cx, "commutative", &[x, y], strict) {
+            if !c01_law(cx, e, f, "commutative", &[x, y], strict) {
                 fails += 1;
             }
         }
     }
-    let mut triple = |cx: &mut Ctx, i: usize, j: usize, k: usize| {
-        let (x, y, z) = (&vals[i], &vals[j], &vals[k]);
-        if !c01_law::<T>(cx, "associative", &[x, y, z], strict) {
-            fails += 1;
-        }
-        let (mi, mj, mk) = (&models[i], &models[j], &models[k]);
-        if mi != mj && mj != mk && mi != mk && !mi.is_bot() && !mj.is_bot() && !mk.is_bot() {
-            cx.rep.nontrivial(hash_of(&("c01", &fam, x, y, z)));
-            cx.rep.sample(|| json!({"family": fam, "x": r_json(x), "y": r_json(y), "z": r_json(z), "law": "associative", "held": true}));
-        }
-    };
     for i in 0..vals.len() {
         for j in 0..vals.len() {
             for k in 0..vals.len() {
-                triple(cx, i, j, k);
+                let (x, y, z) = (&vals[i], &vals[j], &vals[k]);
+                if !c01_law(cx, e, f, "associative", &[x, y, z], strict) {
+                    fails += 1;
+                }
+                let (mi, mj, mk) = (&models[i], &models[j], &models[k]);
+                if mi != mj && mj != mk && mi != mk && !mi.is_bot() && !mj.is_bot() && !mk.is_bot() {
+                    cx.rep.nontrivial(hash_of(&("c01", &fam, x, y, z)));
+                    cx.rep.sample(|| json!({"family": fam, "x": r_json(x), "y": r_json(y), "z": r_json(z), "law": "associative", "held": true}));
+                }
             }
         }
     }
     // extra random triples over a larger list (values beyond the cube above)
-    let big = cx.uni(&T::shape(), cx.args.budget(120, 400, 6));
-    let bvals: Vec<R> = big.vals.iter().filter(|r| T::build(r).is_some()).cloned().collect();
+    let big = cx.uni(&e.t.shape, cx.args.budget(200, 400, 6));
+    let bvals = e.vals_t(&big);
     let mut rng = cx.rng_for(&format!("c01/{fam}"));
-    for _ in 0..cx.args.budget(1500, 40_000, 10) {
+    for _ in 0..cx.args.budget(4000, 100_000, 10) {
         let (x, y, z) = (rng.choose(&bvals), rng.choose(&bvals), rng.choose(&bvals));
-        if !c01_law::<T>(cx, "associative", &[x, y, z], strict) {
+        if !c01_law(cx, e, f, "associative", &[x, y, z], strict) {
             fails += 1;
         }
-        if !c01_law::<T>(cx, "commutative", &[x, y], strict) {
+        if !c01_law(cx, e, f, "commutative", &[x, y], strict) {
             fails += 1;
         }
         let (mi, mj, mk) = (norm(x), norm(y), norm(z));
@@ -223,57 +266,27 @@ where
     }
 }
 
-pub fn c01<T>(cx: &mut Ctx, inp: Option<&Value>)
-where
-    T: Lat + Merge<T> + PartialEq,
-{
-    c01_driver::<T>(cx, inp, true)
-}
-
-/// `DomPair` over a partially ordered key: documented not to be a lattice; failures are counted, not
-/// reported.
-pub fn c01_record<T>(cx: &mut Ctx, inp: Option<&Value>)
-where
-    T: Lat + Merge<T> + PartialEq,
-{
-    c01_driver::<T>(cx, inp, false)
-}
-
-/// Heterogeneous operands: merging two other-representation values into `x` must not depend on
-/// their order, and repeating one must not change the result.
-pub fn c01h_case<T, O>(cx: &mut Ctx, rx: &R, r1: &R, r2: &R)
-where
-    T: Lat + Merge<O>,
-    O: Lat,
-{
-    let site = format!("{}::merge", T::ctor());
-    let case = || {
-        json!({"engine":"mon_lattices","check":"c01h","family":format!("{}|{}", T::name(), O::name()),
-               "x": r_json(rx), "o1": r_json(r1), "o2": r_json(r2)})
-    };
-    let b = |r: &R| O::build(r).expect("c01h build");
-    let r = catch(|| {
-        let x12 = Merge::merge_owned(Merge::merge_owned(T::build(rx).unwrap(), b(r1)), b(r2));
-        let x21 = Merge::merge_owned(Merge::merge_owned(T::build(rx).unwrap(), b(r2)), b(r1));
-        let x121 = Merge::merge_owned(Merge::merge_owned(Merge::merge_owned(T::build(rx).unwrap(), b(r1)), b(r2)), b(r1));
-        (x12.model(), x21.model(), x121.model())
-    });
+fn c01h_case(cx: &mut Ctx, e: &Entry, f: fn(&R, &R, &R) -> P<(R, R, R)>, rx: &R, r1: &R, r2: &R) {
+    let site = format!("{}::merge", e.t.ctor);
+    let fam = e.family();
+    let case = || e.case(json!({"x": r_json(rx), "o1": r_json(r1), "o2": r_json(r2)}));
     cx.rep.eval();
     let class = class_of(&[rx, r1, r2]);
-    match r {
-        Err(p) => cx.rep.violation(&format!("C01|{site}|panic|hetero|{class}"), &format!("{} <- {}: {p}", T::name(), O::name()), case()),
-        Ok((a, b2, c)) => {
-            if a != b2 {
+    match f(rx, r1, r2) {
+        Err(p) => cx.rep.violation(&format!("C01|{site}|panic|hetero|{class}"), &format!("{fam}: {p}"), case()),
+        Ok((a, b, c)) => {
+            let (ma, mb, mc) = (norm(&a), norm(&b), norm(&c));
+            if ma != mb {
                 cx.rep.violation(
                     &format!("C01|{site}|order-dependent(model)|hetero|{class}"),
-                    &format!("{} <- {}: (x+o1)+o2 = {a:?} but (x+o2)+o1 = {b2:?}", T::name(), O::name()),
+                    &format!("{fam}: (x+o1)+o2 = {a:?} but (x+o2)+o1 = {b:?}"),
                     case(),
                 );
             }
-            if a != c {
+            if ma != mc {
                 cx.rep.violation(
                     &format!("C01|{site}|not-idempotent(model)|hetero|{class}"),
-                    &format!("{} <- {}: merging o1 again changed the value: {a:?} -> {c:?}", T::name(), O::name()),
+                    &format!("{fam}: merging o1 again changed the value: {a:?} -> {c:?}"),
                     case(),
                 );
             }
@@ -281,27 +294,23 @@ where
     }
 }
 
-pub fn c01h<T, O>(cx: &mut Ctx, inp: Option<&Value>)
-where
-    T: Lat + Merge<O>,
-    O: Lat,
-{
+fn c01h(cx: &mut Ctx, e: &Entry, f: fn(&R, &R, &R) -> P<(R, R, R)>, inp: Option<&Value>) {
     if let Some(v) = inp {
-        c01h_case::<T, O>(cx, &get_r(v, "x"), &get_r(v, "o1"), &get_r(v, "o2"));
+        c01h_case(cx, e, f, &get_r(v, "x"), &get_r(v, "o1"), &get_r(v, "o2"));
         return;
     }
-    let u = cx.uni(&T::shape(), cx.args.budget(120, 400, 6));
-    let xs: Vec<R> = u.vals.iter().filter(|r| T::build(r).is_some()).cloned().collect();
-    let os: Vec<R> = u.vals.iter().filter(|r| O::build(r).is_some()).cloned().collect();
+    let u = cx.uni(&e.t.shape, cx.args.budget(200, 400, 6));
+    let xs = e.vals_t(&u);
+    let os = e.vals_o(&u);
     if os.is_empty() {
         cx.rep.count("c01h_no_buildable_other");
         return;
     }
-    let fam = format!("{}|{}", T::name(), O::name());
+    let fam = e.family();
     let mut rng = cx.rng_for(&format!("c01h/{fam}"));
-    for _ in 0..cx.args.budget(400, 8000, 5) {
+    for _ in 0..cx.args.budget(1500, 30_000, 5) {
         let (x, o1, o2) = (rng.choose(&xs), rng.choose(&os), rng.choose(&os));
-        c01h_case::<T, O>(cx, x, o1, o2);
+        c01h_case(cx, e, f, x, o1, o2);
         let (mx, m1, m2) = (norm(x), norm(o1), norm(o2));
         if m1 != m2 && !m1.is_bot() && !m2.is_bot() && mx != m1 && mx != m2 {
             cx.rep.nontrivial(hash_of(&("c01h", &fam, x, o1, o2)));
@@ -313,8 +322,8 @@ where
 /// `Point`: merging equal values returns false and keeps the value; merging unequal values must
 /// panic, never silently succeed. (C01 + C02 + C03 parts for the one-point lattice.)
 pub fn point_check(cx: &mut Ctx, prop: &str, inp: Option<&Value>) {
-    use lattices::Point;
-    type P = Point<u8, ()>;
+    use lattices::{IsBot, IsTop, Merge, Point};
+    type Pt = Point<u8, ()>;
     let vals: Vec<u8> = match inp {
         Some(v) => vec![v["a"].as_u64().unwrap() as u8, v["b"].as_u64().unwrap() as u8],
         None => (0..6).collect(),
@@ -327,8 +336,8 @@ pub fn point_check(cx: &mut Ctx, prop: &str, inp: Option<&Value>) {
         let case = || json!({"engine":"mon_lattices","check":"point","family":"Point<u8>","a":a,"b":b});
         cx.rep.eval();
         let r = catch(|| {
-            let mut x = P::new(a);
-            let f = x.merge(P::new(b));
+            let mut x = Pt::new(a);
+            let f = x.merge(Pt::new(b));
             (f, x.val)
         });
         match (a == b, r) {
@@ -353,18 +362,18 @@ pub fn point_check(cx: &mut Ctx, prop: &str, inp: Option<&Value>) {
         }
         if prop == "C03" {
             cx.rep.eval();
-            match catch(|| P::new(a) == P::new(b)) {
-                Ok(e) if e == (a == b) => {}
-                Ok(e) => cx.rep.violation("C03|Point::eq|wrong-answer", &format!("{a} == {b} gave {e}"), case()),
+            match catch(|| Pt::new(a) == Pt::new(b)) {
+                Ok(x) if x == (a == b) => {}
+                Ok(x) => cx.rep.violation("C03|Point::eq|wrong-answer", &format!("{a} == {b} gave {x}"), case()),
                 Err(p) => cx.rep.violation("C03|Point::eq|panic", &p, case()),
             }
             if a == b {
-                match catch(|| P::new(a).partial_cmp(&P::new(b))) {
+                match catch(|| Pt::new(a).partial_cmp(&Pt::new(b))) {
                     Ok(Some(Ordering::Equal)) => {}
                     Ok(o) => cx.rep.violation("C03|Point::partial_cmp|wrong-answer-on-equal", ord_name(o), case()),
                     Err(p) => cx.rep.violation("C03|Point::partial_cmp|panic-on-equal", &p, case()),
                 }
-                let p = P::new(a);
+                let p = Pt::new(a);
                 if !(p.is_bot() && p.is_top()) {
                     cx.rep.violation("C03|Point::is_bot/is_top|one-point-lattice-not-both", "", case());
                 }
@@ -377,36 +386,26 @@ pub fn point_check(cx: &mut Ctx, prop: &str, inp: Option<&Value>) {
 // =============================================================================================
 // C02
 
-pub fn c02_case<T, O>(cx: &mut Ctx, ra: &R, rb: &R)
-where
-    T: Lat + Merge<O>,
-    O: Lat,
-{
-    let site = format!("{}::merge", T::ctor());
-    let fam = format!("{}|{}", T::name(), O::name());
-    let case = || json!({"engine":"mon_lattices","check":"c02","family":fam,"a":r_json(ra),"b":r_json(rb)});
+fn c02_case(cx: &mut Ctx, e: &Entry, f: fn(&R, &R) -> P<(bool, R)>, ra: &R, rb: &R) {
+    let site = format!("{}::merge", e.t.ctor);
+    let fam = e.family();
+    let case = || e.case(json!({"a": r_json(ra), "b": r_json(rb)}));
     let before = norm(ra);
     let mb = norm(rb);
     let expected = before.join(&mb);
-    let r = catch(|| {
-        let mut a = T::build(ra).expect("c02 build a");
-        let b = O::build(rb).expect("c02 build b");
-        let flag = a.merge(b);
-        (flag, a)
-    });
     cx.rep.eval();
     let class = class_of(&[ra, rb]);
-    let hetero = if T::name() == O::name() { "same-repr" } else { "cross-repr" };
-    match (r, expected) {
+    let hetero = e.hetero();
+    match (f(ra, rb), expected) {
         (Err(_), None) => cx.rep.count("c02_undefined_join_panicked_as_documented"),
         (Ok(_), None) => cx.rep.violation(&format!("C02|{site}|no-panic-on-undefined-join"), &format!("{fam}: merge of unequal points returned"), case()),
         (Err(p), Some(_)) => cx.rep.violation(&format!("C02|{site}|panic|{hetero}|{class}"), &format!("{fam}: {p}"), case()),
-        (Ok((flag, a)), Some(exp)) => {
-            let after = a.model();
+        (Ok((flag, ar)), Some(exp)) => {
+            let after = norm(&ar);
             if after != exp {
                 cx.rep.violation(
                     &format!("C02|{site}|wrong-result|{hetero}|{class}"),
-                    &format!("{fam}: after merge the receiver reveals {:?}; model join is {exp:?}", a.reveal()),
+                    &format!("{fam}: after merge the receiver reveals {ar:?}; model join is {exp:?}"),
                     case(),
                 );
             }
@@ -435,30 +434,26 @@ where
     }
 }
 
-pub fn c02<T, O>(cx: &mut Ctx, inp: Option<&Value>)
-where
-    T: Lat + Merge<O>,
-    O: Lat,
-{
+fn c02(cx: &mut Ctx, e: &Entry, f: fn(&R, &R) -> P<(bool, R)>, inp: Option<&Value>) {
     if let Some(v) = inp {
-        c02_case::<T, O>(cx, &get_r(v, "a"), &get_r(v, "b"));
+        c02_case(cx, e, f, &get_r(v, "a"), &get_r(v, "b"));
         return;
     }
-    assert_eq!(T::shape(), O::shape(), "table error: {} vs {}", T::name(), O::name());
-    let u = cx.uni(&T::shape(), cx.args.budget(120, 400, 6));
-    let xs: Vec<R> = u.vals.iter().filter(|r| T::build(r).is_some()).cloned().collect();
-    let os: Vec<R> = u.vals.iter().filter(|r| O::build(r).is_some()).cloned().collect();
-    let fam = format!("{}|{}", T::name(), O::name());
+    assert_eq!(e.t.shape, e.other().shape, "table error: {}", e.family());
+    let u = cx.uni(&e.t.shape, cx.args.budget(200, 400, 6));
+    let xs = e.vals_t(&u);
+    let os = e.vals_o(&u);
+    let fam = e.family();
     if os.is_empty() {
         cx.rep.count("c02_no_buildable_other");
         return;
     }
     // all pairs if that fits the budget, else a seeded sample
-    let cap = cx.args.budget(6000, 160_000, 30);
+    let cap = cx.args.budget(20_000, 160_000, 30);
     let total = xs.len() * os.len();
     let mut rng = cx.rng_for(&format!("c02/{fam}"));
-    let mut run = |cx: &mut Ctx, a: &R, b: &R| {
-        c02_case::<T, O>(cx, a, b);
+    let run = |cx: &mut Ctx, a: &R, b: &R| {
+        c02_case(cx, e, f, a, b);
         let (ma, mb) = (norm(a), norm(b));
         if !ma.is_bot() && !mb.is_bot() && ma != mb {
             cx.rep.nontrivial(hash_of(&("c02", &fam, a, b)));
@@ -478,7 +473,7 @@ where
         }
     }
     cx.rep.count("c02_pairs_of_representations");
-    if T::name() != O::name() {
+    if e.hetero() == "cross-repr" {
         cx.rep.count("c02_cross_representation_pairs");
     }
 }
@@ -486,28 +481,22 @@ where
 // =============================================================================================
 // C03
 
-pub fn c03_case<T, O>(cx: &mut Ctx, ra: &R, rb: &R)
-where
-    T: Lat + PartialOrd<O> + PartialEq<O>,
-    O: Lat,
-{
-    let fam = format!("{}|{}", T::name(), O::name());
-    let case = || json!({"engine":"mon_lattices","check":"c03","family":fam,"a":r_json(ra),"b":r_json(rb)});
+fn c03_case(cx: &mut Ctx, e: &Entry, f: fn(&R, &R) -> CmpObs, ra: &R, rb: &R) {
+    let fam = e.family();
+    let ctor = e.t.ctor;
+    let case = || e.case(json!({"a": r_json(ra), "b": r_json(rb)}));
     let (ma, mb) = (norm(ra), norm(rb));
     let c = ma.cmp_m(&mb);
     let class = class_of(&[ra, rb]);
-    let hetero = if T::name() == O::name() { "same-repr" } else { "cross-repr" };
-    let mk = || (T::build(ra).expect("c03 build a"), O::build(rb).expect("c03 build b"));
+    let hetero = e.hetero();
+    let o = f(ra, rb);
     cx.rep.eval();
-    match catch(|| {
-        let (a, b) = mk();
-        a.partial_cmp(&b)
-    }) {
-        Err(p) => cx.rep.violation(&format!("C03|{}::partial_cmp|panic|{hetero}|{class}", T::ctor()), &format!("{fam}: {p}"), case()),
+    match o.pc {
+        Err(p) => cx.rep.violation(&format!("C03|{ctor}::partial_cmp|panic|{hetero}|{class}"), &format!("{fam}: {p}"), case()),
         Ok(got) => {
             if got != c.as_ordering() {
                 cx.rep.violation(
-                    &format!("C03|{}::partial_cmp|{}-expected-{}|{hetero}|{class}", T::ctor(), ord_name(got), ord_name(c.as_ordering())),
+                    &format!("C03|{ctor}::partial_cmp|{}-expected-{}|{hetero}|{class}", ord_name(got), ord_name(c.as_ordering())),
                     &format!("{fam}: partial_cmp gave {got:?}, the model order says {c:?} ({ma:?} vs {mb:?})"),
                     case(),
                 );
@@ -515,32 +504,22 @@ where
         }
     }
     cx.rep.eval();
-    match catch(|| {
-        let (a, b) = mk();
-        a == b
-    }) {
-        Err(p) => cx.rep.violation(&format!("C03|{}::eq|panic|{hetero}|{class}", T::ctor()), &format!("{fam}: {p}"), case()),
+    match o.eq {
+        Err(p) => cx.rep.violation(&format!("C03|{ctor}::eq|panic|{hetero}|{class}"), &format!("{fam}: {p}"), case()),
         Ok(got) => {
             if got != (c == Cmp::Equal) {
                 cx.rep.violation(
-                    &format!("C03|{}::eq|{}-expected-{}|{hetero}|{class}", T::ctor(), got, c == Cmp::Equal),
+                    &format!("C03|{ctor}::eq|{}-expected-{}|{hetero}|{class}", got, c == Cmp::Equal),
                     &format!("{fam}: == gave {got}, models {ma:?} vs {mb:?}"),
                     case(),
                 );
             }
         }
     }
-    // the operator forms
     cx.rep.eval();
-    match catch(|| {
-        let (a, b) = mk();
-        let r1 = (a <= b, a < b);
-        let (a, b) = if T::INTERIOR { mk() } else { (a, b) };
-        let r2 = (a >= b, a > b, a != b);
-        (r1.0, r1.1, r2.0, r2.1, r2.2)
-    }) {
-        Err(p) => cx.rep.violation(&format!("C03|{}::cmp-operators|panic|{hetero}|{class}", T::ctor()), &format!("{fam}: {p}"), case()),
-        Ok((le, lt, ge, gt, ne)) => {
+    match o.ops {
+        Err(p) => cx.rep.violation(&format!("C03|{ctor}::cmp-operators|panic|{hetero}|{class}"), &format!("{fam}: {p}"), case()),
+        Ok(got) => {
             let exp = (
                 matches!(c, Cmp::Less | Cmp::Equal),
                 c == Cmp::Less,
@@ -548,10 +527,10 @@ where
                 c == Cmp::Greater,
                 c != Cmp::Equal,
             );
-            if (le, lt, ge, gt, ne) != exp {
+            if got != exp {
                 cx.rep.violation(
-                    &format!("C03|{}::cmp-operators|wrong-answer|{hetero}|{class}", T::ctor()),
-                    &format!("{fam}: (<=,<,>=,>,!=) = {:?}, model order {c:?} demands {exp:?}", (le, lt, ge, gt, ne)),
+                    &format!("C03|{ctor}::cmp-operators|wrong-answer|{hetero}|{class}"),
+                    &format!("{fam}: (<=,<,>=,>,!=) = {got:?}, model order {c:?} demands {exp:?}"),
                     case(),
                 );
             }
@@ -559,29 +538,25 @@ where
     }
 }
 
-pub fn c03<T, O>(cx: &mut Ctx, inp: Option<&Value>)
-where
-    T: Lat + PartialOrd<O> + PartialEq<O>,
-    O: Lat,
-{
+fn c03(cx: &mut Ctx, e: &Entry, f: fn(&R, &R) -> CmpObs, inp: Option<&Value>) {
     if let Some(v) = inp {
-        c03_case::<T, O>(cx, &get_r(v, "a"), &get_r(v, "b"));
+        c03_case(cx, e, f, &get_r(v, "a"), &get_r(v, "b"));
         return;
     }
-    assert_eq!(T::shape(), O::shape(), "table error: {} vs {}", T::name(), O::name());
-    let u = cx.uni(&T::shape(), cx.args.budget(120, 400, 6));
-    let xs: Vec<R> = u.vals.iter().filter(|r| T::build(r).is_some()).cloned().collect();
-    let os: Vec<R> = u.vals.iter().filter(|r| O::build(r).is_some()).cloned().collect();
-    let fam = format!("{}|{}", T::name(), O::name());
+    assert_eq!(e.t.shape, e.other().shape, "table error: {}", e.family());
+    let u = cx.uni(&e.t.shape, cx.args.budget(200, 400, 6));
+    let xs = e.vals_t(&u);
+    let os = e.vals_o(&u);
+    let fam = e.family();
     if os.is_empty() || xs.is_empty() {
         cx.rep.count("c03_no_buildable_operand");
         return;
     }
-    let cap = cx.args.budget(4000, 160_000, 30);
+    let cap = cx.args.budget(12_000, 160_000, 30);
     let total = xs.len() * os.len();
     let mut rng = cx.rng_for(&format!("c03/{fam}"));
-    let mut run = |cx: &mut Ctx, a: &R, b: &R| {
-        c03_case::<T, O>(cx, a, b);
+    let run = |cx: &mut Ctx, a: &R, b: &R| {
+        c03_case(cx, e, f, a, b);
         let (ma, mb) = (norm(a), norm(b));
         if !ma.is_bot() && !mb.is_bot() && ma != mb {
             cx.rep.nontrivial(hash_of(&("c03", &fam, a, b)));
@@ -606,37 +581,29 @@ where
         }
     }
     cx.rep.count("c03_pairs_of_representations");
-    if T::name() != O::name() {
+    if e.hetero() == "cross-repr" {
         cx.rep.count("c03_cross_representation_pairs");
     }
 }
 
-/// `naive_cmp` (derived from the merge flags) against `partial_cmp` and against the model order.
-pub fn c03n_case<T, O>(cx: &mut Ctx, ra: &R, rb: &R)
-where
-    T: Lat + Merge<O> + PartialOrd<O>,
-    O: Lat + Merge<T>,
-{
-    let fam = format!("{}|{}", T::name(), O::name());
-    let case = || json!({"engine":"mon_lattices","check":"c03n","family":fam,"a":r_json(ra),"b":r_json(rb)});
+type NaiveFn = fn(&R, &R) -> P<(Option<Ordering>, Option<Ordering>)>;
+
+fn c03n_case(cx: &mut Ctx, e: &Entry, f: NaiveFn, ra: &R, rb: &R) {
+    let fam = e.family();
+    let ctor = e.t.ctor;
+    let case = || e.case(json!({"a": r_json(ra), "b": r_json(rb)}));
     let (ma, mb) = (norm(ra), norm(rb));
     if ma.join(&mb).is_none() {
         return; // Point of unequal values: documented panic
     }
     let class = class_of(&[ra, rb]);
     cx.rep.eval();
-    match catch(|| {
-        let a = T::build(ra).unwrap();
-        let b = O::build(rb).unwrap();
-        let n = a.naive_cmp(&b);
-        let (a, b) = if T::INTERIOR { (T::build(ra).unwrap(), O::build(rb).unwrap()) } else { (a, b) };
-        (n, a.partial_cmp(&b))
-    }) {
-        Err(p) => cx.rep.violation(&format!("C03|{}::naive_cmp|panic|{class}", T::ctor()), &format!("{fam}: {p}"), case()),
+    match f(ra, rb) {
+        Err(p) => cx.rep.violation(&format!("C03|{ctor}::naive_cmp|panic|{class}"), &format!("{fam}: {p}"), case()),
         Ok((n, p)) => {
             if n != p {
                 cx.rep.violation(
-                    &format!("C03|{}::naive_cmp|differs-from-partial_cmp|{class}", T::ctor()),
+                    &format!("C03|{ctor}::naive_cmp|differs-from-partial_cmp|{class}"),
                     &format!("{fam}: naive_cmp {n:?} vs partial_cmp {p:?}"),
                     case(),
                 );
@@ -644,7 +611,7 @@ where
             let c = ma.cmp_m(&mb).as_ordering();
             if n != c {
                 cx.rep.violation(
-                    &format!("C03|{}::naive_cmp|{}-expected-{}|{class}", T::ctor(), ord_name(n), ord_name(c)),
+                    &format!("C03|{ctor}::naive_cmp|{}-expected-{}|{class}", ord_name(n), ord_name(c)),
                     &format!("{fam}: naive_cmp {n:?}, model order {c:?}"),
                     case(),
                 );
@@ -653,22 +620,18 @@ where
     }
 }
 
-pub fn c03n<T, O>(cx: &mut Ctx, inp: Option<&Value>)
-where
-    T: Lat + Merge<O> + PartialOrd<O>,
-    O: Lat + Merge<T>,
-{
+fn c03n(cx: &mut Ctx, e: &Entry, f: NaiveFn, inp: Option<&Value>) {
     if let Some(v) = inp {
-        c03n_case::<T, O>(cx, &get_r(v, "a"), &get_r(v, "b"));
+        c03n_case(cx, e, f, &get_r(v, "a"), &get_r(v, "b"));
         return;
     }
-    let u = cx.uni(&T::shape(), cx.args.budget(60, 200, 5));
-    let xs: Vec<R> = u.vals.iter().filter(|r| T::build(r).is_some()).cloned().collect();
-    let os: Vec<R> = u.vals.iter().filter(|r| O::build(r).is_some()).cloned().collect();
-    let fam = format!("{}|{}", T::name(), O::name());
+    let u = cx.uni(&e.t.shape, cx.args.budget(60, 200, 5));
+    let xs = e.vals_t(&u);
+    let os = e.vals_o(&u);
+    let fam = e.family();
     for a in &xs {
         for b in &os {
-            c03n_case::<T, O>(cx, a, b);
+            c03n_case(cx, e, f, a, b);
             let (ma, mb) = (norm(a), norm(b));
             if !ma.is_bot() && !mb.is_bot() && ma != mb {
                 cx.rep.nontrivial(hash_of(&("c03n", &fam, a, b)));
@@ -680,52 +643,34 @@ where
 
 /// Partial-order laws on the crate's own answers over triples (reflexive, antisymmetric w.r.t. ==,
 /// transitive, dual).
-pub fn c03t<T>(cx: &mut Ctx, inp: Option<&Value>)
-where
-    T: Lat + PartialOrd<T> + PartialEq<T>,
-{
-    let fam = T::name();
+fn c03t(cx: &mut Ctx, e: &Entry, f: fn(&R, &R) -> CmpObs, inp: Option<&Value>) {
+    let fam = e.t.name.clone();
     let vals: Vec<R> = match inp {
         Some(v) => v["inputs"].as_array().unwrap().iter().map(r_parse).collect(),
         None => {
             let n = cx.args.budget(30, 70, 5);
-            let u = cx.uni(&T::shape(), n);
-            u.vals.iter().filter(|r| T::build(r).is_some()).cloned().collect()
+            let u = cx.uni(&e.t.shape, n);
+            e.vals_t(&u)
         }
     };
-    if T::shape() == Sh::Point {
-        return;
-    }
     let n = vals.len();
-    let site = T::ctor();
-    let q = |i: usize, j: usize| {
-        catch(|| {
-            let a = T::build(&vals[i]).unwrap();
-            let b = T::build(&vals[j]).unwrap();
-            let le = a <= b;
-            let (a, b) = if T::INTERIOR { (T::build(&vals[i]).unwrap(), T::build(&vals[j]).unwrap()) } else { (a, b) };
-            let lt = a < b;
-            let (a, b) = if T::INTERIOR { (T::build(&vals[i]).unwrap(), T::build(&vals[j]).unwrap()) } else { (a, b) };
-            let gt = a > b;
-            let (a, b) = if T::INTERIOR { (T::build(&vals[i]).unwrap(), T::build(&vals[j]).unwrap()) } else { (a, b) };
-            (le, lt, gt, a == b)
-        })
-    };
+    let site = e.t.ctor;
     let mut le = vec![vec![false; n]; n];
     let mut lt = vec![vec![false; n]; n];
     let mut gt = vec![vec![false; n]; n];
     let mut eq = vec![vec![false; n]; n];
-    let case3 = |is: &[usize]| json!({"engine":"mon_lattices","check":"c03t","family":fam,"inputs": is.iter().map(|&i| r_json(&vals[i])).collect::<Vec<_>>()});
+    let case3 = |is: &[usize]| e.case(json!({"inputs": is.iter().map(|&i| r_json(&vals[i])).collect::<Vec<_>>()}));
     for i in 0..n {
         for j in 0..n {
-            match q(i, j) {
-                Ok((a, b, c, d)) => {
+            let o = f(&vals[i], &vals[j]);
+            match (o.ops, o.eq) {
+                (Ok((a, b, _, c, _)), Ok(d)) => {
                     le[i][j] = a;
                     lt[i][j] = b;
                     gt[i][j] = c;
                     eq[i][j] = d;
                 }
-                Err(p) => {
+                (Err(p), _) | (_, Err(p)) => {
                     cx.rep.violation(&format!("C03|{site}::cmp-operators|panic|laws"), &format!("{fam}: {p}"), case3(&[i, j]));
                 }
             }
@@ -764,22 +709,22 @@ where
     cx.rep.count("c03_law_families");
 }
 
-/// `is_bot`, `is_top` against the model's least / greatest element.
-pub fn c03u_case<T>(cx: &mut Ctx, rx: &R)
-where
-    T: Lat + IsBot + IsTop,
-{
-    let fam = T::name();
-    let case = || json!({"engine":"mon_lattices","check":"c03u","family":fam,"x":r_json(rx)});
+type UnaryFn = fn(&R) -> (P<bool>, P<bool>);
+
+fn c03u_case(cx: &mut Ctx, e: &Entry, f: UnaryFn, rx: &R) {
+    let fam = &e.t.name;
+    let ctor = e.t.ctor;
+    let case = || e.case(json!({"x": r_json(rx)}));
     let m = norm(rx);
     let class = class_of(&[rx]);
+    let (ob, ot) = f(rx);
     cx.rep.eval();
-    match catch(|| T::build(rx).unwrap().is_bot()) {
-        Err(p) => cx.rep.violation(&format!("C03|{}::is_bot|panic|{class}", T::ctor()), &format!("{fam}: {p}"), case()),
+    match ob {
+        Err(p) => cx.rep.violation(&format!("C03|{ctor}::is_bot|panic|{class}"), &format!("{fam}: {p}"), case()),
         Ok(b) => {
             if b != m.is_bot() {
                 let kind = if b { "true-on-non-bottom" } else { "false-on-bottom" };
-                cx.rep.violation(&format!("C03|{}::is_bot|{kind}|{class}", T::ctor()), &format!("{fam}: is_bot = {b} for {m:?}"), case());
+                cx.rep.violation(&format!("C03|{ctor}::is_bot|{kind}|{class}"), &format!("{fam}: is_bot = {b} for {m:?}"), case());
             }
             if m.is_bot() {
                 cx.rep.count("c03_bottoms_seen");
@@ -787,16 +732,16 @@ where
         }
     }
     cx.rep.eval();
-    match catch(|| T::build(rx).unwrap().is_top()) {
-        Err(p) => cx.rep.violation(&format!("C03|{}::is_top|panic|{class}", T::ctor()), &format!("{fam}: {p}"), case()),
+    match ot {
+        Err(p) => cx.rep.violation(&format!("C03|{ctor}::is_top|panic|{class}"), &format!("{fam}: {p}"), case()),
         Ok(t) => {
             if t != m.is_greatest() {
                 // Attribute to WithTop only if the answer is exactly what results from treating
                 // WithTop(Some(inner top)) as the top; everything else is blamed on the root type.
                 let (site, kind, cls) = if t && has_withtop_some_top(rx) && m.is_greatest_collapsing_withtop() {
-                    ("WithTop".to_string(), "true-on-non-greatest", "some-inner-top")
+                    ("WithTop", "true-on-non-greatest", "some-inner-top")
                 } else {
-                    (T::ctor().to_string(), if t { "true-on-non-greatest" } else { "false-on-greatest" }, class)
+                    (ctor, if t { "true-on-non-greatest" } else { "false-on-greatest" }, class)
                 };
                 cx.rep.violation(
                     &format!("C03|{site}::is_top|{kind}|{cls}"),
@@ -811,41 +756,34 @@ where
     }
 }
 
-pub fn c03u<T>(cx: &mut Ctx, inp: Option<&Value>)
-where
-    T: Lat + IsBot + IsTop,
-{
+fn c03u(cx: &mut Ctx, e: &Entry, f: UnaryFn, inp: Option<&Value>) {
     if let Some(v) = inp {
-        c03u_case::<T>(cx, &get_r(v, "x"));
+        c03u_case(cx, e, f, &get_r(v, "x"));
         return;
     }
-    let u = cx.uni(&T::shape(), cx.args.budget(120, 400, 6));
-    let fam = T::name();
-    for r in u.vals.iter().filter(|r| T::build(r).is_some()) {
-        c03u_case::<T>(cx, r);
-        cx.rep.nontrivial(hash_of(&("c03u", &fam, r)));
+    let u = cx.uni(&e.t.shape, cx.args.budget(200, 400, 6));
+    let fam = e.t.name.clone();
+    for r in e.vals_t(&u) {
+        c03u_case(cx, e, f, &r);
+        cx.rep.nontrivial(hash_of(&("c03u", &fam, &r)));
     }
     cx.rep.count("c03_isbot_istop_families");
 }
 
-pub fn c03d<T>(cx: &mut Ctx, _inp: Option<&Value>)
-where
-    T: Lat + IsBot + Default,
-{
-    let fam = T::name();
-    let case = || json!({"engine":"mon_lattices","check":"c03d","family":fam});
+fn c03d(cx: &mut Ctx, e: &Entry, f: fn() -> P<(bool, R)>) {
+    let fam = &e.t.name;
+    let ctor = e.t.ctor;
+    let case = || e.case(json!({}));
     cx.rep.eval();
-    match catch(|| {
-        let d = T::default();
-        (d.is_bot(), d.model())
-    }) {
-        Err(p) => cx.rep.violation(&format!("C03|{}::default|panic", T::ctor()), &format!("{fam}: {p}"), case()),
-        Ok((b, m)) => {
+    match f() {
+        Err(p) => cx.rep.violation(&format!("C03|{ctor}::default|panic"), &format!("{fam}: {p}"), case()),
+        Ok((b, r)) => {
+            let m = norm(&r);
             if !m.is_bot() {
-                cx.rep.violation(&format!("C03|{}::default|not-bottom(model)", T::ctor()), &format!("{fam}: default reveals {m:?}"), case());
+                cx.rep.violation(&format!("C03|{ctor}::default|not-bottom(model)"), &format!("{fam}: default reveals {r:?}"), case());
             }
             if !b {
-                cx.rep.violation(&format!("C03|{}::default|is_bot-false", T::ctor()), &fam, case());
+                cx.rep.violation(&format!("C03|{ctor}::default|is_bot-false"), fam, case());
             }
         }
     }
@@ -855,32 +793,20 @@ where
 // =============================================================================================
 // C06
 
-pub fn c06_case<T>(cx: &mut Ctx, rx: &R)
-where
-    T: Lat + Atomize + Default + IsBot,
-    T::Atom: Lat,
-{
-    let fam = T::name();
-    let case = || json!({"engine":"mon_lattices","check":"c06","family":fam,"x":r_json(rx)});
+type AtomFn = fn(&R) -> P<(bool, Vec<(bool, R)>, R)>;
+
+fn c06_case(cx: &mut Ctx, e: &Entry, f: AtomFn, rx: &R) {
+    let fam = &e.t.name;
+    let case = || e.case(json!({"x": r_json(rx)}));
     let m = norm(rx);
     let class = class_of(&[rx]);
-    let site = format!("{}::atomize", T::ctor());
+    let site = format!("{}::atomize", e.t.ctor);
     cx.rep.eval();
-    let r = catch(|| {
-        let x = T::build(rx).unwrap();
-        let is_bot = x.is_bot();
-        let atoms: Vec<T::Atom> = x.atomize().collect();
-        let infos: Vec<(bool, M, R)> = atoms.iter().map(|a| (a.is_bot(), a.model(), a.reveal())).collect();
-        let mut re = T::default();
-        for a in atoms {
-            re.merge(a);
-        }
-        (is_bot, infos, re.model())
-    });
-    match r {
+    match f(rx) {
         Err(p) => cx.rep.violation(&format!("C06|{site}|panic|{class}"), &format!("{fam}: {p}"), case()),
         Ok((is_bot, infos, re)) => {
-            for (ab, am, ar) in &infos {
+            for (ab, ar) in &infos {
+                let am = norm(ar);
                 if *ab || am.is_bot() {
                     cx.rep.violation(
                         &format!("C06|{site}|bottom-atom|{class}"),
@@ -901,7 +827,8 @@ where
                     case(),
                 );
             }
-            if re != m {
+            let rem = norm(&re);
+            if rem != m {
                 cx.rep.violation(
                     &format!("C06|{site}|atoms-do-not-reform|{class}"),
                     &format!("{fam}: merging the {} atoms into Default gives {re:?}, original is {m:?}", infos.len()),
@@ -910,8 +837,8 @@ where
             }
             cx.rep.count_n("c06_atoms_total", infos.len() as u64);
             if infos.len() >= 2 {
-                cx.rep.nontrivial(hash_of(&("c06", &fam, rx)));
-                cx.rep.sample(|| json!({"family": fam, "x": r_json(rx), "atoms": infos.iter().map(|(_, _, r)| r_json(r)).collect::<Vec<_>>()}));
+                cx.rep.nontrivial(hash_of(&("c06", fam, rx)));
+                cx.rep.sample(|| json!({"family": fam, "x": r_json(rx), "atoms": infos.iter().map(|(_, r)| r_json(r)).collect::<Vec<_>>()}));
             }
             if infos.is_empty() {
                 cx.rep.count("c06_bottom_values");
@@ -920,19 +847,15 @@ where
     }
 }
 
-pub fn c06<T>(cx: &mut Ctx, inp: Option<&Value>)
-where
-    T: Lat + Atomize + Default + IsBot,
-    T::Atom: Lat,
-{
+fn c06(cx: &mut Ctx, e: &Entry, f: AtomFn, inp: Option<&Value>) {
     if let Some(v) = inp {
-        c06_case::<T>(cx, &get_r(v, "x"));
+        c06_case(cx, e, f, &get_r(v, "x"));
         return;
     }
-    let u = cx.uni(&T::shape(), cx.args.budget(300, 3000, 8));
-    for r in u.vals.iter().filter(|r| T::build(r).is_some()) {
-        c06_case::<T>(cx, r);
+    let u = cx.uni(&e.t.shape, cx.args.budget(1000, 10_000, 8));
+    for r in e.vals_t(&u) {
+        c06_case(cx, e, f, &r);
     }
     cx.rep.count("c06_families");
-    cx.rep.count(&format!("c06_family:{}", T::name()));
+    cx.rep.count(&format!("c06_family:{}", e.t.name));
 }
